@@ -242,6 +242,7 @@ struct Shared {
     rec: Arc<Recorder>,
     salt: u64,
     tasks: Vec<TaskSpec>,
+    nw: usize,
     status: Mutex<Vec<String>>, // [0] = joining thread, [s] = dispatching thread s
     gate: Gate,
     /// accepted fire-and-forget dispatch_blocking closures that have not ended yet: nobody awaits
@@ -394,12 +395,11 @@ fn dispatch_blocking(
     let body = spec.body.clone();
     let rec = sh.rec.clone();
     let tok = token(sh.salt, id);
-    let guard = if forget {
-        sh.forgotten_blocking.fetch_add(1, Ordering::SeqCst);
-        Some(ForgottenGuard(sh.clone()))
-    } else {
-        None
-    };
+    // whether or not somebody awaits it (the receiver may be dropped later): the run is not over
+    // before the closure has ended
+    let _ = forget;
+    sh.forgotten_blocking.fetch_add(1, Ordering::SeqCst);
+    let guard = ForgottenGuard(sh.clone());
     sh.rec.log(Ev::new("dcall").id(id).s(s).k("blocking"));
     let f = move || {
         let _guard = guard;
@@ -485,27 +485,38 @@ async fn sender_main(
                 }
             }
             Op::Park { ids } => {
-                // one gate task at a time: the next one can only be taken by a worker that is
-                // not parked yet
+                // One gate task at a time. A gate closure parks the worker that calls it; flume may
+                // also hand it to the pending recv of a worker that is parked already, then nobody
+                // reports and the next gate task is sent. Certainty comes from the reports: one
+                // per worker thread of the dispatcher.
+                let nw = sh.nw;
+                let mut parked = std::collections::BTreeSet::new();
+                let rx = sh.gate.parked_rx.lock().unwrap();
                 for id in ids {
+                    if parked.len() >= nw {
+                        break;
+                    }
                     sh.set_status(s, format!("parking a worker with gate task {id}"));
                     let spec = sh.tasks.iter().find(|t| t.id == *id).expect("task").clone();
-                    if let Some(rx) = dispatch_async(&disp, &sh, &spec, s as u32, with_rt) {
-                        pending.push((*id, rx));
-                        let parked = sh
-                            .gate
-                            .parked_rx
-                            .lock()
-                            .unwrap()
-                            .recv_timeout(Duration::from_secs(15));
-                        if parked.is_err() {
-                            sh.rec.log(
-                                Ev::new("bodyerr")
-                                    .id(*id)
-                                    .msg("gate task did not park a worker within 15 s".into()),
-                            );
+                    if let Some(r) = dispatch_async(&disp, &sh, &spec, s as u32, with_rt) {
+                        pending.push((*id, r));
+                        if let Ok(w) = rx.recv_timeout(Duration::from_millis(150)) {
+                            parked.insert(w);
                         }
                     }
+                }
+                let t0 = std::time::Instant::now();
+                while parked.len() < nw && t0.elapsed() < Duration::from_secs(15) {
+                    if let Ok(w) = rx.recv_timeout(Duration::from_millis(100)) {
+                        parked.insert(w);
+                    }
+                }
+                if parked.len() < nw {
+                    sh.rec.log(
+                        Ev::new("bodyerr")
+                            .id(0)
+                            .msg(format!("only {} of {nw} workers parked on the gate", parked.len())),
+                    );
                 }
             }
             Op::Open => sh.gate.release(),
@@ -642,6 +653,7 @@ fn run_one(run: u64, p: &Program, report: &mut Report, out: &mut File, progs: &m
         rec: rec.clone(),
         salt: run.wrapping_mul(31).wrapping_add(p.seed),
         tasks: p.tasks.clone(),
+        nw: p.nw,
         status: Mutex::new(vec![String::from("starting"); p.threads.len() + 1]),
         gate: Gate::new(),
         forgotten_blocking: AtomicUsize::new(0),
